@@ -263,6 +263,20 @@ Fixpoint rr_next_back (fuel : nat) (s : run_reader) : option entry * run_reader 
       end
   end.
 
+(** enough for the loops of rr_next / rr_next_back: they advance one table per turn *)
+Definition rr_fuel (r : run) : nat := S (S (length r)).
+
+Inductive pull := Front | Back.
+
+(** the result of each next / next_back call on a RunReader, in call order *)
+Fixpoint rr_pulls (fuel : nat) (s : run_reader) (ps : list pull) : list (option entry) :=
+  match ps with
+  | [] => []
+  | p :: ps' =>
+      let (o, s') := match p with Front => rr_next fuel s | Back => rr_next_back fuel s end in
+      o :: rr_pulls fuel s' ps'
+  end.
+
 (** ** Merger (merge.rs) *)
 
 (** The interval heap is a bag of HeapItem(idx, item); only pop_min / pop_max are
@@ -474,8 +488,6 @@ Arguments d_front {I}.
 Arguments d_back {I}.
 
 (** ** The tree iterator *)
-
-Inductive pull := Front | Back.
 
 (** TreeIter: Filter<MvccStream<Merger>> *)
 Definition tree_iter := dep merger.
